@@ -314,12 +314,12 @@ LOOPBACK = ["pkg/object/httpserver", "harness/common/loopback"]
 CHECKS["C03"] = {
     "level": "exploration",
     "technique": "deviation-bounded exhaustive enumeration (choice-tree DFS) of (request, backend answer, configuration) triples over real loopback sockets with a raw-socket client",
-    "level_text": "every single deviation and every pair (thorough: triple) of deviations from a base triple over 25 dimensions (method, escaped paths, queries, repeated / hop-by-hop / Connection-named headers incl. a second Connection line, "
+    "level_text": "every combination of up to 4 (thorough: 5) deviations from a base triple over 25 dimensions (method, escaped paths, queries, repeated / hop-by-hop / Connection-named headers incl. a second Connection line, "
                   "request body size x length-declared|chunked|gzip, backend status, body size around the compression threshold, framing, Content-Encoding, pipelines with Request/ResponseAdaptor body|compress|decompress, "
                   "server by IP|host name|keepHost, compression, buffered|stream) is sent through the real http.Server + mux + Pipeline + Proxy to a real backend; oracle on what the backend received and on the bytes the client received (framing parsed by hand)",
     "level_note": "free-running real net/http stack: the enumeration is over inputs and configurations, not schedules; no timing in the oracle; HTTP/1.1 only",
     "rule": "choice tree: one ChooseDev per dimension (deviation = non-base value); distinct_nontrivial = distinct (status, framing) outcomes",
-    "bounds": {"quick": "3 deviations", "thorough": "4 deviations"},
+    "bounds": {"quick": "4 deviations", "thorough": "5 deviations"},
     "assumptions": ["every request carries Connection: close so that the end of the framed response is observable"],
     "units": [
         {"name": "httpserver", "pkg": "pkg/object/httpserver", "test": "TestVerifC03", "inject": [LOOPBACK]},
